@@ -1,12 +1,28 @@
 """C20 - XInclude: specification XInclude (explicit-stack machine vs the recursive definition of XInclude 1.0), binder T.
 
-Every file system (inclusion graph) TLC enumerates within the weight bound is written to a scratch directory and parsed with
-XercesDOMParser and DOMLSParser (XInclude + namespaces on); the DOM must equal the specified expansion, every element's base URI
-must resolve relative references into the directory of the document the element came from, exactly the specified files are opened
-(XMLPlatformUtils::fgFileMgr decorator), a fatal error of the specified class is reported for loops / invalid usage, and the call
-returns (vh::Supervisor: a hang or crash is a disagreement).
+Every file system (inclusion graph) TLC enumerates within the weight bound is written to a scratch directory under .build/c20 and
+parsed with XercesDOMParser and DOMLSParser (XInclude + namespaces on). For a defined expansion the DOM must equal the specified
+tree (modulo DOM normalisation, xml:base attributes set aside), every element's base URI must resolve a probe reference into the
+directory of the document the element came from, the number of resource-error warnings must equal the number of fallbacks used, and
+exactly the specified files must be opened (XMLPlatformUtils::fgFileMgr decorator). For a loop or an invalid usage a fatal error of
+the specified class must be reported, and the call must return (vh::Supervisor: a hang or crash is a disagreement).
+The same TLC run checks the specification's own invariants (XIncludeInv: machine = Expand, LoopSound/LoopComplete, HistIsChain,
+DepthBound, BaseFixup) with deadlock checking on (termination); the temporal property Terminates is checked on XInclude.small.cfg.
 
-Mutants (mutants/C20, `bin/mutant-run C20 mutants/C20/*.diff`): see the list at the end of this file's META note.
+Non-vacuity (done by hand, 2026-09-22): flipping one expected base directory, one text, the error class, the loads or the warning
+count of a generated case makes the harness report it (why = base / tree / not reported / files read / warnings / spurious error);
+removing the history pop or the history look-up from the SPECIFICATION makes TLC report XIncludeInv violated on XInclude.small.cfg;
+TLC coverage: every action of the machine is taken (evidence: spec_action_coverage, spec_actions_never_taken = []).
+
+Mutants (mutants/C20, `bin/mutant-run C20 mutants/C20/*.diff`):
+  history_not_popped                 popFromCurrentInclusionHistoryStack dropped -> a later sibling include of the same file (inside
+                                     an included document) is refused as a loop
+  history_check_removed              isInCurrentInclusionHistoryStack ignored -> cycles that do not pass through the main document
+                                     recurse without bound (crash / hang = disagreement)
+  fallback_not_reprocessed           the children of a used xi:fallback are not processed -> include elements stay in the result
+                                     (visible in included documents only: the main document is processed bottom-up)
+  href_ignores_include_base          href resolved against the main document instead of the include element's base
+  base_fixup_only_without_href_dir   no xml:base fix-up when the href has a directory part -> base URIs (and nested hrefs) wrong
 """
 import json
 import os
